@@ -40,6 +40,10 @@ def install(ctx, strict_threshold=True):
         v_ = np.asarray(self.source.valid) if self.source is not None else np.array([])
         n_data = int(np.sum((v_ == 1) | (v_ == 4)))
         wit = {'selector': (form, val), 'chi2': chi, 'n_data': n_data}
+        if form in 'EF' and n_data == 0:
+            # chi^2 per data point with no data point is not defined by the syntax page (x/0): don't-care
+            ctx.event('keep:per-point-selector-with-no-fitted-point(dont-care)')
+            return True
         if form in 'CDEF':
             # quantifier: thresholds never equal an attained value (docs say "below", code says <=)
             q = np.asarray(chi, float)
@@ -141,7 +145,7 @@ def thresholds(q):
 
 def selectors_for(info, n_data):
     chi = np.asarray(info.chi2, float)
-    sels = [('A', 0), ('A', 3.5), ('A', None)] + [('N', n) for n in range(0, 8)]
+    sels = [('A', 0), ('A', 3.5), ('A', None)] + [('N', n) for n in range(0, 8)] + [('N', 2.0), ('N', np.int64(1)), ('N', np.float64(5.0))]
     with np.errstate(all='ignore'):
         qs = {'C': chi, 'D': chi - chi[0] if len(chi) else chi, 'E': chi / n_data,
               'F': (chi - chi[0]) / n_data if len(chi) else chi}
